@@ -2,7 +2,7 @@
    This is what the OCaml driver calls; each command evaluates model functions on a case that the
    Python harness also runs on the rebuilt implementation. *)
 From OptreeModel Require Export Wire Flatten Unflatten Spec Ops Registry Pickle Accessor.
-From OptreeModel Require Ravel Dataclass Typing Faults Depth Alias Conc ArraySpec.
+From OptreeModel Require Ravel Dataclass Typing Faults Depth Alias Conc ArraySpec Construct.
 
 Definition bad : sexp := SL [SI 2].   (* undecodable input: a harness error, never a verdict *)
 
@@ -354,6 +354,27 @@ Definition cmd_arr_children (c : cfg) (o : obj) : sexp :=
     enc_res (fun l => SL (map (fun a => SL (map enc_node a)) l)) (ArraySpec.arr_children (trav sp))
   end.
 
+(* cmd 22: treespec_from_collection on a one-level collection whose children are the treespecs of
+   trees flattened under their own (none_is_leaf, namespace) *)
+Definition dec_child (regs : list reg) (ins : list Z) (limit : nat) (s : sexp) : option (cfg * obj) :=
+  match s with
+  | SL [SI nl; SI ns; o] =>
+    omap (fun o' => ({| c_nil := negb (Z.eqb nl 0); c_ns := ns; c_pred := None; c_reg := regs;
+                        c_ins := ins; c_limit := limit |}, o')) (dec_obj o)
+  | _ => None
+  end.
+Definition cmd_construct (c : cfg) (h : obj) (children : list (cfg * obj)) : sexp :=
+  match h with
+  | Node hd _ =>
+    match omapM (fun '(ci, oi) => match flatten ci oi with
+                                  | Ok (_, sp) => sspec_of sp
+                                  | Err _ => None end) children with
+    | None => SL [SI 5]
+    | Some specs => enc_res enc_sspec (Construct.make_from_collection c hd specs)
+    end
+  | _ => bad
+  end.
+
 Definition run (s : sexp) : sexp :=
   match s with
   | SL [SI 1; c; o] =>
@@ -455,6 +476,15 @@ Definition run (s : sexp) : sexp :=
   | SL [SI 21; c; o] =>
     match dec_cfg c, dec_obj o with
     | Some c', Some o' => cmd_arr_children c' o'
+    | _, _ => bad
+    end
+  | SL [SI 22; c; h; SL children] =>
+    match dec_cfg c, dec_obj h with
+    | Some c', Some h' =>
+      match omapM (dec_child (c_reg c') (c_ins c') (c_limit c')) children with
+      | Some ch => cmd_construct c' h' ch
+      | None => bad
+      end
     | _, _ => bad
     end
   | SL [SI 17; c; o] =>
